@@ -11,7 +11,7 @@
 mod blocks;
 mod model;
 
-use blocks::{build_block, normalise_tx, Alphabet, TEMPLATES};
+use blocks::{block_predicates, build_block, normalise_tx, Alphabet, TEMPLATES};
 use fuel_core_compression::{
     compress::compress,
     decompress::decompress,
@@ -229,6 +229,9 @@ enum Seed {
     /// keys 0 and 1 hold values 0 and 1, last assigned key is MAX_WRITABLE-1: the
     /// next registrations get MAX_WRITABLE, 0 (wrap-around), 1
     WrapBeforeMax,
+    /// keys 0 and 1 hold the live values 0 and 1 and the last assigned key is
+    /// MAX_WRITABLE: the cursor wraps onto two consecutive live keys
+    WrapOnTwoLive,
 }
 
 struct Subj {
@@ -242,7 +245,23 @@ struct Subj {
 
 /// Registry events a transition can exhibit (vacuity guard: every one of them
 /// must occur in a run that starts from a wrapped key space).
-const EVENTS: [&str; 8] = ["reuse", "fresh-key", "rereg-same-key", "evict-live", "evict-expired", "wrap-to-zero", "max-key", "two-in-keyspace"];
+const EVENTS: [&str; 10] = ["reuse", "fresh-key", "rereg-same-key", "evict-live", "evict-expired", "wrap-to-zero", "max-key", "two-in-keyspace", "skip-two-kept", "script-bytes-as-predicate"];
+
+/// Events that must occur when exploring from `seed` (the others are out of
+/// reach of that seed within the bounds).
+fn required_events(seed: Seed) -> &'static [&'static str] {
+    match seed {
+        Seed::Fresh => &[],
+        // (from WrapOnLive the next key is 0: MAX_WRITABLE is 2^24 registrations away)
+        Seed::WrapOnLive => &["reuse", "fresh-key", "rereg-same-key", "evict-live", "evict-expired", "wrap-to-zero", "two-in-keyspace", "script-bytes-as-predicate"],
+        // (from WrapBeforeMax a live entry is only hit after more steps than the bound)
+        Seed::WrapBeforeMax => &["reuse", "fresh-key", "rereg-same-key", "evict-expired", "wrap-to-zero", "max-key", "two-in-keyspace", "script-bytes-as-predicate"],
+        Seed::WrapOnTwoLive => &["reuse", "fresh-key", "skip-two-kept", "script-bytes-as-predicate"],
+    }
+}
+
+/// Number of writable keys (0 ..= MAX_WRITABLE).
+const KEY_SPACE: u32 = (1 << 24) - 1;
 
 fn key(n: u32) -> RegistryKey {
     RegistryKey::try_from(n).unwrap()
@@ -259,6 +278,7 @@ impl Subj {
             Seed::Fresh => return,
             Seed::WrapOnLive => (1usize, RegistryKey::MAX_WRITABLE),
             Seed::WrapBeforeMax => (2usize, key(RegistryKey::MAX_WRITABLE.as_u32() - 1)),
+            Seed::WrapOnTwoLive => (2usize, RegistryKey::MAX_WRITABLE),
         };
         let mut tx = db.write_transaction();
         {
@@ -428,6 +448,15 @@ impl Subject for Subj {
         w.height = height;
         w.time = time;
 
+        // where the evictor's cursor stands before this block, per keyspace
+        let cursors: Vec<RegistryKey> = {
+            let rt = w.comp.read_transaction();
+            [MetadataKey::Address, MetadataKey::AssetId, MetadataKey::ContractId, MetadataKey::ScriptCode, MetadataKey::PredicateCode]
+                .iter()
+                .map(|mk| rt.storage_as_ref::<EvictorCache>().get(mk).ok().flatten().map(|k| k.into_owned().next()).unwrap_or(RegistryKey::ZERO))
+                .collect()
+        };
+
         // ---- compressor (real service flow: storage tx, context, compress, archive, commit)
         let (max_regs, n_regs, used) = {
             let mut tx = w.comp.write_transaction();
@@ -496,6 +525,28 @@ impl Subject for Subj {
             classify!(regs.contract_id, ContractId);
             classify!(regs.script_code, ScriptCode);
             classify!(regs.predicate_code, PredicateCode);
+            // the first key handed out lies two or more past the cursor: the evictor had
+            // to step over that many consecutive keys the block itself still reads
+            let firsts: [Option<u32>; 5] = [
+                regs.address.iter().map(|(k, _)| (k.as_u32() + KEY_SPACE - cursors[0].as_u32()) % KEY_SPACE).min(),
+                regs.asset_id.iter().map(|(k, _)| (k.as_u32() + KEY_SPACE - cursors[1].as_u32()) % KEY_SPACE).min(),
+                regs.contract_id.iter().map(|(k, _)| (k.as_u32() + KEY_SPACE - cursors[2].as_u32()) % KEY_SPACE).min(),
+                regs.script_code.iter().map(|(k, _)| (k.as_u32() + KEY_SPACE - cursors[3].as_u32()) % KEY_SPACE).min(),
+                regs.predicate_code.iter().map(|(k, _)| (k.as_u32() + KEY_SPACE - cursors[4].as_u32()) % KEY_SPACE).min(),
+            ];
+            if firsts.iter().flatten().any(|d| *d >= 2) {
+                tags.insert("skip-two-kept");
+            }
+            // bytes that are live in the script keyspace are used as a predicate
+            for p in block_predicates(&block) {
+                let as_script = ScriptCode::from(p);
+                if let Ok(Some(k)) = view.registry_index_lookup(&as_script) {
+                    let ts: Option<Tai64> = <_ as TemporalRegistry<ScriptCode>>::read_timestamp(&view, &k).ok();
+                    if ts.map(|t| config.is_timestamp_accessible(Tai64(time), t).unwrap_or(false)).unwrap_or(false) {
+                        tags.insert("script-bytes-as-predicate");
+                    }
+                }
+            }
         }
         if used > n_regs {
             tags.insert("reuse");
@@ -596,7 +647,7 @@ fn witness_events(subjects: &[Subj]) -> serde_json::Value {
     for s in subjects {
         let mut w = s.fresh();
         let mut log = vec![];
-        for (t, dt) in [(2u8, 0u8), (0, 1), (3, 2), (1, 0), (2, 2)] {
+        for (t, dt) in [(6u8, 1u8), (2, 0), (0, 1), (3, 2), (1, 0), (2, 2)] {
             if !s.templates.contains(&t) || !s.dts.contains(&dt) {
                 continue;
             }
@@ -611,7 +662,9 @@ fn witness_events(subjects: &[Subj]) -> serde_json::Value {
 fn c33(cli: &Cli) {
     let thorough = cli.tier == Tier::Thorough;
     let alpha = Alphabet::new();
-    let all: Vec<u8> = (0..TEMPLATES.len() as u8).collect();
+    let all: Vec<u8> = (0..6).collect();
+    let all7: Vec<u8> = (0..TEMPLATES.len() as u8).collect();
+    let two_live: Vec<u8> = vec![2, 3, 4, 6];
     let mk = |seed: Seed, templates: Vec<u8>, dts: Vec<u8>, revs: bool| Subj { seed, templates, dts, revs, alpha: alpha.clone(), events: Default::default() };
     // (subject, depth)
     let mut plan: Vec<(Subj, usize)> = vec![];
@@ -624,11 +677,13 @@ fn c33(cli: &Cli) {
             plan.push((mk(seed, core4.clone(), vec![1, 2], false), 6));
         }
         plan.push((mk(Seed::Fresh, all.clone(), vec![1, 2], false), 4));
+        plan.push((mk(Seed::WrapOnTwoLive, all7.clone(), vec![0, 1, 2], true), 4));
     } else {
         plan.push((mk(Seed::WrapOnLive, all.clone(), vec![0, 1, 2], false), 3));
         plan.push((mk(Seed::WrapOnLive, all.clone(), vec![1, 2], true), 4));
         plan.push((mk(Seed::WrapBeforeMax, all.clone(), vec![1, 2], true), 4));
         plan.push((mk(Seed::Fresh, all.clone(), vec![1, 2], false), 3));
+        plan.push((mk(Seed::WrapOnTwoLive, two_live.clone(), vec![1, 2], true), 3));
     }
     if let Some(path) = &cli.replay {
         let rf = load_replay(path);
@@ -638,9 +693,9 @@ fn c33(cli: &Cli) {
             }
         }
         // a replay recorded by the other tier: rebuild the subject from its name
-        for seed in [Seed::WrapOnLive, Seed::WrapBeforeMax, Seed::Fresh] {
+        for seed in [Seed::WrapOnLive, Seed::WrapBeforeMax, Seed::Fresh, Seed::WrapOnTwoLive] {
             for revs in [true, false] {
-                for tpl in [all.clone(), core4.clone()] {
+                for tpl in [all.clone(), core4.clone(), all7.clone(), two_live.clone()] {
                     for dts in [vec![0u8, 1, 2], vec![1u8, 2]] {
                         let s = mk(seed, tpl.clone(), dts, revs);
                         if s.name() == rf.subject {
@@ -659,12 +714,9 @@ fn c33(cli: &Cli) {
         let r = explore(s, &b);
         // vacuity: in a wrapped key space every registry event must have happened
         let counts: Vec<(&str, u64)> = EVENTS.iter().zip(&s.events).map(|(e, c)| (*e, c.load(Ordering::Relaxed))).collect();
-        if s.seed != Seed::Fresh && r.violations.is_empty() {
-            for (e, c) in &counts {
-                // (from WrapOnLive the next key is 0: MAX_WRITABLE is 2^24 registrations away)
-                // and from WrapBeforeMax a live entry is only hit after more steps than the bound)
-                let not_reachable = (s.seed == Seed::WrapOnLive && *e == "max-key") || (s.seed == Seed::WrapBeforeMax && *e == "evict-live");
-                if *c == 0 && !not_reachable {
+        if r.violations.is_empty() {
+            for e in required_events(s.seed) {
+                if counts.iter().any(|(n, c)| n == e && *c == 0) {
                     machinery_failure(&format!("{}: vacuous exploration, registry event '{e}' never happened", s.name()));
                 }
             }
